@@ -128,7 +128,7 @@ func runC03(t *testing.T, e *worlds.Env, tier string) (bool, any) {
 		for _, a := range addrs {
 			dials = append(dials, "tcp/"+a)
 		}
-		// dial fault: the last peer of the group refuses connections for a while; the attempt fails
+		// dial fault: one peer of the group (mostly the last) refuses connections for a while; the attempt fails
 		// after the earlier peers were connected, and a retry within try_duration succeeds. Every
 		// connection of every attempt has to be closed.
 		dialFault := npeers > 1 && !tlsUp && tp.Prob(1, 4, "dial-fault")
@@ -136,7 +136,12 @@ func runC03(t *testing.T, e *worlds.Env, tier string) (bool, any) {
 		var tryDur time.Duration
 		if dialFault {
 			faulty = true
+			// (the last peer in one run of two: the peers before it are connected when the attempt
+			// fails; otherwise any peer - the peers after it may be dialled all the same)
 			lastAddr := addrs[len(addrs)-1]
+			if tp.Prob(1, 2, "dial-fault-any-peer") {
+				lastAddr = addrs[tp.Choose(len(addrs), "dial-fault-peer")]
+			}
 			ups.Ups[lastAddr].SetState(simnet.Refuse)
 			back := time.Duration(tp.Pick("peer-back-ms", 30, 200, 5000)) * time.Millisecond
 			tryDur = 1 * time.Second
